@@ -1,6 +1,6 @@
 """C16 — pid / reference uniqueness. Domain `pid`."""
 ID = "C16"
-GEN_FILES = ["PidConsts.v"]
+GEN_FILES = ["PidConsts.v", "LockScope.v"]
 RULE = ("sequential runs of k allocations from chosen counter positions (around the id wrap point, around the serial's "
         "32-bit wrap, random), parallel runs of T OS threads x N allocations released from a barrier, make_reference "
         "sequentially and in parallel; distinct = distinct case text; non-trivial = crosses a wrap point or runs >= 2 threads")
